@@ -91,3 +91,15 @@ void h_pes_arrow(void)   { PES *s; pes_arrow(s); SENT("promise_extra_storage::op
 #ifdef CV_HAS_pes_deref
 void h_pes_deref(void)   { PES *s; pes_deref(s); SENT("promise_extra_storage::operator*"); }
 #endif
+#ifdef CV_HAS_pesm_alloc
+void h_pesm_alloc(void)  { PESM *s; cv_i64 sz; pesm_alloc(s, sz); SENT("promise_extra_storage<Extra,reusable_storage_mtsafe>::alloc"); }
+#endif
+#ifdef CV_HAS_pesm_dealloc
+void h_pesm_dealloc(void) { cv_i8 *p; cv_i64 sz; pesm_dealloc(p, sz); SENT("promise_extra_storage<Extra,reusable_storage_mtsafe>::dealloc"); }
+#endif
+#ifdef CV_HAS_xs_alloc      /* abstract inner policy (size hand-shake) */
+void h_xs_alloc(void)    { XS *s; cv_i64 sz; xs_alloc(s, sz); SENT("promise_extra_storage<Extra,Alloc>::alloc over an abstract inner policy"); }
+#endif
+#ifdef CV_HAS_xs_dealloc
+void h_xs_dealloc(void)  { cv_i8 *p; cv_i64 sz; xs_dealloc(p, sz); SENT("promise_extra_storage<Extra,Alloc>::dealloc over an abstract inner policy"); }
+#endif
